@@ -311,7 +311,9 @@ func runC09Timestamp(t *Tape, st *Stats) *RunResult {
 		case 2:
 			tc = obs.TStart.Add(time.Duration(sc.CancelMs)*time.Millisecond + cancelOffset)
 		}
-		if !tc.IsZero() && !tc.After(obs.TReturn) && obs.X.Rec.Begun && obs.TReturn.After(tc) && sc.Scheme == 0 && !sc.NoTimestamp {
+		// (a caller-supplied signer that takes its time and does not look at
+		// the context is not the library blocking)
+		if !tc.IsZero() && !tc.After(obs.TReturn) && obs.X.Rec.Begun && obs.TReturn.After(tc) && sc.Scheme == 0 && !sc.NoTimestamp && sc.KeySpecLat == 0 {
 			rc.fail("C09.R3", "sign/blocked_after_cancel", fmt.Sprintf("%s: the context was cancelled at %s but Sign only returned at %s", desc, rel(tc), rel(obs.TReturn)))
 		}
 	}
